@@ -22,6 +22,7 @@ CMD_VER, CMD_READ, CMD_WRITE, CMD_FILL, CMD_LINK_READ, CMD_LINK_WRITE = 0, 2, 3,
 CMD_NNP, CMD_SIG, CMD_FFD, CMD_LED, CMD_IPTAG, CMD_ALLOC, CMD_RTR, CMD_INFO = 20, 22, 23, 25, 26, 28, 29, 31
 NN_FFS, NN_FFCS, NN_FFE = 6, 7, 15
 STATE_IDLE, STATE_WAIT, STATE_RUN = 15, 5, 7
+STATE_SYNC0, STATE_SYNC1, STATE_PAUSE, STATE_EXIT = 8, 9, 10, 11
 LINK_VEC = [(1, 0), (1, 1), (0, 1), (-1, 0), (-1, -1), (0, -1)]
 
 
@@ -310,9 +311,10 @@ class SimMachine(object):
         if op == 3:
             chip.iptags.pop(tagno, None)
             return (), b""
+        # iptag_t: ip[4], mac[6], tx_port, timeout, flags (bit 15 = in use), count, rx_port, spin_addr, spin_port
         port, addr = chip.iptags.get(tagno, (0, 0))
         flags = 0x8000 if tagno in chip.iptags else 0
-        payload = struct.pack("<4s6s2HIH2B", struct.pack("<I", addr), b"\0" * 6, port & 0xffff, 0, 0, flags, 0, 0)
+        payload = struct.pack("<4s6s3HI2HB3x", struct.pack("<I", addr), b"\0" * 6, port & 0xffff, 0, flags, 0, 0, 0, 0)
         return (), payload
 
     def _cmd_28(self, chip, p, a, data, rec):         # alloc / free
@@ -381,6 +383,7 @@ class SimMachine(object):
                 return RC_ARG
             chip.rtr[pos] = (key, mask, route, app)
             installed.append(pos)
+            rec.setdefault("installed_entries", []).append((pos, key, mask, route))
         self._sync_router(chip, installed)
         rec["installed"] = installed
         return (), b""
@@ -416,10 +419,17 @@ class SimMachine(object):
             for i in range(1, c.ncores):
                 if c.core_app[i] != app or c.core_state[i] == STATE_IDLE:
                     continue
-                if sig == 3 and c.core_state[i] == STATE_WAIT:           # start
+                cur = c.core_state[i]
+                if sig == 3 and cur == STATE_WAIT:                       # start
                     c.core_state[i] = STATE_RUN
                 elif sig == 2:                                            # stop
                     c.core_state[i], c.core_app[i], c.core_image[i] = STATE_IDLE, 0, None
+                elif (sig, cur) in ((4, STATE_SYNC0), (5, STATE_SYNC1), (7, STATE_PAUSE)):   # barriers, continue
+                    c.core_state[i] = STATE_RUN
+                elif sig == 6 and cur == STATE_RUN:                       # pause
+                    c.core_state[i] = STATE_PAUSE
+                elif sig == 8:                                            # exit
+                    c.core_state[i] = STATE_EXIT
                 self._sync_core(c, i)
             if sig == 2:
                 for ptr, (size, tag, ap) in list(c.sdram_allocs.items()):
